@@ -267,6 +267,7 @@ func c19(p *P) {
 		})
 		r.Check(headCC && headND, "C19.R3", "both take the HEAD finalized by the look-back certificate", p.c.Pos(cc.Pos()), "Head() of the look-back certificate's chain", fmt.Sprintf("certchain uses head: %v, node uses head: %v", headCC, headND))
 	}
+	p.gCommitteePure("C19.R3")
 	// AS5 support: the look-back list only ever receives certificates that passed every check of Validate —
 	// a rejected certificate that stays in the list shifts the committee of every later instance away from the node's rule
 	if va := p.fn("C19.R3", "certchain.CertChain.Validate"); va != nil {
